@@ -321,7 +321,13 @@ pub fn check_released(uid: Uid) {
         s.release_due = false;
         (s.disp.take(), s.spec.via_insert)
     });
-    w(|w| w.count("release_check"));
+    w(|w| {
+        w.count("release_check");
+        let s = &w.srcs[uid];
+        if s.registered && !s.fault_fired {
+            w.alarm("C06.released", "removed-source-never-unregistered", format!("source #{} was removed but the loop never unregistered it: its registrations (fd, timer, lifecycle entry) stay behind", uid));
+        }
+    });
     if let Some(d) = disp {
         let r = catch_unwind(AssertUnwindSafe(|| match d {
             DispZ::N(d) => {
@@ -564,7 +570,7 @@ fn run_inner(h: &History, cfg: &RunCfg) -> Outcome {
     W.with(|c| *c.borrow_mut() = Some(world));
     w(|w| {
         w.trace_on = cfg.trace;
-        w.allow_update_disabled = h.profile == "C07";
+        w.allow_update_disabled = h.profile == "C07" || h.profile == "C05";
     });
     calloop::verif::set_yield_hook(Some(hist_hook));
     let mut steps_run = 0;
